@@ -44,7 +44,9 @@ class Check(PropertyCheck):
     prop = "C10"
     design_ref = "§5 C10"
     level_text = ("Lean theorems (never_fires_while_blocked[_reach], active_not_closed, idle_closes, "
-                  "restart_after_last_hook, reachable_good) about a program-counter model of TimeoutWatchdog for EVERY "
+                  "restart_after_last_hook, reachable_good; the history-level specification exec_hist + closed_iff_idle_prefix: the "
+                  "connection is closed exactly when some prefix of the history has no hook pending and >= timeout ticks since the "
+                  "last activity or last-hook completion; not_closed_while_never_idle) about a program-counter model of TimeoutWatchdog for EVERY "
                   "schedule of activity, nested/overlapping hooks and clock advances (induction over the schedule, "
                   "unbounded clock); the model is tied to the real TimeoutWatchdog and to the real "
                   "ProxyConnectionHandler.handle_hook/server_event running on a virtual-time asyncio loop, step by step.")
